@@ -399,6 +399,17 @@ func (x *Exec) refFactsAt(st *State, t types.Type, L []string) {
 			x.refFactsAt(st, u.At(i).Type(), L[off:off+n])
 			off += n
 		}
+	case *types.Array:
+		// an array value whose elements are references (slices, pointers, maps):
+		// every element refers to an object that exists already
+		switch under(u.Elem()).(type) {
+		case *types.Pointer, *types.Slice, *types.Map, *types.Chan:
+			if len(L) > 0 && u.Len() <= 64 {
+				for i := int64(0); i < u.Len(); i++ {
+					x.vc.assume(tCmp("<=", tSel(L[0], num(i)), st.allocTop))
+				}
+			}
+		}
 	}
 }
 
